@@ -67,3 +67,39 @@ def rated_names(cat):
         nw = len(e[2]) if len(e) > 2 else 0
         res[n] = 'fail' if nf else ('warn' if nw else 'clean')
     return res
+
+
+def rated_peer():
+    """Peers whose lists are random mixtures and orderings of fail-rated, warn-only and clean
+    database names (classes from the tree's table).  Returns dict cat -> list of names (>= 1 each)."""
+    def one(cat):
+        rn = rated_names(cat)
+        by = {'fail': sorted(n for n, c in rn.items() if c == 'fail'), 'warn': sorted(n for n, c in rn.items() if c == 'warn'), 'clean': sorted(n for n, c in rn.items() if c == 'clean')}
+        parts = []
+        for cls in ('fail', 'warn', 'clean'):
+            if by[cls]:
+                parts.append(st.lists(st.sampled_from(by[cls]), min_size=0, max_size=3, unique=True))
+            else:
+                parts.append(st.just([]))
+        def mix(t):
+            f, w, c, which, perm = t
+            l = (f if which & 1 else []) + (w if which & 2 else []) + (c if which & 4 else [])
+            if not l:
+                l = (c or w or f or [sorted(rn)[0]])[:1] if (c or w or f) else [sorted(rn)[0]]
+            l = list(dict.fromkeys(l))
+            # deterministic shuffle driven by drawn integers
+            out = []
+            for i, x in enumerate(l):
+                out.insert(perm[i % len(perm)] % (len(out) + 1), x)
+            return out
+        return st.tuples(parts[0], parts[1], parts[2], st.integers(1, 7), st.lists(st.integers(0, 9), min_size=1, max_size=9)).map(mix)
+    return st.fixed_dictionaries({c: one(c) for c in CATS})
+
+
+def all_clean_peer():
+    res = {}
+    for c in CATS:
+        rn = rated_names(c)
+        clean = sorted(n for n, k in rn.items() if k == 'clean')
+        res[c] = st.lists(st.sampled_from(clean), min_size=1, max_size=3, unique=True)
+    return st.fixed_dictionaries(res)
